@@ -687,6 +687,9 @@ def specials(depth_family=False):
     for k, ch in enumerate(["\x0c", "\x0b", "\x85", "\u2028", "\u2029", "\x1c"]):
         out.append((f"lbchar{k}.c", ok_func(f"lbchar{k}.c") + "\n/*\n** a" + ch + "b " + ch + "\n** " + "x" * 90 + "\n*/\n", "lbchar"))
         out.append((f"lbchar{k}s.c", ok_func(f"lbchar{k}s.c", body="\tft_putstr(\"a" + ch + "b\");\n\treturn (0); \n"), "lbchar"))
+    # one stray character per file (each gets a BAD_LEXEME whose text quotes that character)
+    for k, ch in enumerate(["@", "$", "`", "\\", "\u00a7", "\u00a0"]):
+        out.append((f"badlex{k}.c", ok_func(f"badlex{k}.c", body=f"\ta = 1 {ch} 2;\n\treturn (0);\n"), "badlex"))
     # malformed literals (4.11)
     lits = ["0b102", "0189", "0xfg", "10lul", "10q", "1uu", "0x1e+1", "1e", "1e+", "1.e-", "1.2.3", "1.0q", "1.0ff",
             "0xx1p1", "0x1.8", "''", "'ab'", "'\\x'", "'\\q'", "L'a'", "u8\"s\"", "L''", "\"\\xZZ\"", "1..2", ".5.", "0x",
